@@ -99,6 +99,30 @@ def run_case(c, rng):
     if rng.random() < 0.5:
         o['pattern_start'] = rng.choice([0, o['pattern_timestep'], 3 * o['pattern_timestep'] + 600, 5400, 7 * 3600])
     wn = gnet.build(spec)
+    # a Pattern *object* that brings its own time options (made for another model / another step) and is added to this model:
+    # patterns always follow the model's options.time (add_pattern's documentation).  Side stream seeded by the case.
+    import random as _random
+    side = _random.Random(c.index * 67867967 + len(spec['junctions']))
+    if side.random() < 0.3:
+        from wntr.network.elements import Pattern
+        mult = [gnet._round(side.uniform(0.2, 2.0), 3) for _ in range(side.choice([2, 3, 5, 7]))]
+        foreign = side.choice([900, 1800, 3 * o['pattern_timestep'], o['pattern_timestep'] // 2 or 60])
+        how = side.choice(['tuple', 'other_model'])
+        if how == 'tuple':
+            pobj = Pattern('PX', multipliers=mult, time_options=(side.choice([0, 600]), foreign))
+        else:
+            import wntr as _w
+            other = _w.network.WaterNetworkModel()
+            other.options.time.pattern_timestep = foreign
+            other.add_pattern('PX', mult)
+            pobj = other.get_pattern('PX')
+        wn.add_pattern('PX', pobj)
+        spec['patterns']['PX'] = mult
+        for j in side.sample(spec['junctions'], min(2, len(spec['junctions']))):
+            base = gnet._round(side.uniform(0.0005, 0.004), 5)
+            wn.get_node(j['name']).add_demand(base, 'PX', None)
+            j['demands'].append({'base': base, 'pattern': 'PX', 'category': None})
+        c.count('foreign_pattern_object_cases')
     interp = rng.random() < 0.25
     wn.options.time.pattern_interpolation = interp        # whatever the generated spec said
     if interp:
